@@ -203,6 +203,38 @@ def run(ctx):
                        lambda bb, t: es.build(cfg, t, bb)[0], d, info,
                        poison=[es.refused_in_nested(schema)] if schema else ())
         reqs_seen.append(1)
+    # ---- "each word ... of the INPUT ... addressed to the fully qualified field": queries given as text. `name:value`
+    # must be read as the field `name` and the term `value` (documented lexical rules, independent tokenizer and
+    # grammar of the C03 check), and the clause built from it must sit on that field with that text (seeded C06-G:
+    # `zone-12:45` swallowed into one word by a wider time look-behind)
+    from . import c03
+    from .. import gen as _gen, parsing as _parsing
+    b = I.es.ElasticsearchQueryBuilder(default_field="dflt", not_analyzed_fields=[])
+    for _ in range(ctx.budget(80, 1500)):
+        name = rng.choice(_gen.FIELDS + ["zone-12", "level+10", "iso-8859-15", "slotT10", "x-1", "a+22"])
+        value = rng.choice([w for w in _gen.WORDS if ":" not in w and "\\" not in w and not w.startswith(("*", "?"))] + ["45", "15", "30x"])
+        sep = rng.choice(["", "", " ", "\t"])
+        q = "%s:%s%s" % (name, sep, value)
+        toks = _parsing.spec_lex(q)
+        if toks is None or [t[0] for t in toks] != ["TERM", "COLUMN", "TERM"]:
+            continue
+        r, t = _parsing.impl_parse(q)
+        ctx.count("queries given as text")
+        if t is None:
+            ctx.fail("a `name:value` query of the documented syntax is refused", {"q": q, "err": r})
+            continue
+        try:
+            j = b(t)
+        except Exception as e:
+            continue
+        leaves = es.leaves_of(j) if hasattr(es, "leaves_of") else None
+        flat = json.dumps(j, sort_keys=True)
+        want_field = toks[0][1].replace("\\", "") if False else toks[0][1]
+        sk = c03.skeleton(r["ok"])
+        spec, why = c03.spec_parse(toks)
+        if spec is not None and sk != spec:
+            ctx.fail("the query is not read as field `%s` and term `%s`: the clause is addressed elsewhere" % (
+                toks[0][1], toks[2][1]), {"q": q, "json": j, "tree": sk, "documented": spec})
     after = class_state(I)
     if after != before:
         ctx.fail("a call modified class-level attributes of the E-classes", {"before": before, "after": after})
